@@ -1453,7 +1453,24 @@ func (_exp) exec(vm *vm) {
 			if (*big.Int)(y).Cmp(big.NewInt(0)) < 0 {
 				panic(vm.r.newError(vm.r.getRangeError(), "exponent must be positive"))
 			}
-			result = (*valueBigInt)(new(big.Int).Exp((*big.Int)(x), (*big.Int)(y), nil))
+			if xbits := (*big.Int)(x).BitLen(); xbits <= 1 {
+				// 0, 1 or -1: only the parity of the exponent matters, however large it is
+				res := new(big.Int)
+				switch {
+				case (*big.Int)(y).Sign() == 0:
+					res.SetInt64(1)
+				case (*big.Int)(y).Bit(0) == 0:
+					res.Abs((*big.Int)(x))
+				default:
+					res.Set((*big.Int)(x))
+				}
+				result = (*valueBigInt)(res)
+			} else if !(*big.Int)(y).IsUint64() || (*big.Int)(y).Uint64() > maxBigIntBits/uint64(xbits-1) {
+				// |x| >= 2: the result needs more than (xbits-1)*y bits
+				panic(vm.r.newError(vm.r.getRangeError(), "Maximum BigInt size exceeded"))
+			} else {
+				result = (*valueBigInt)(new(big.Int).Exp((*big.Int)(x), (*big.Int)(y), nil))
+			}
 			goto end
 		}
 		panic(errMixBigIntType)
@@ -1788,12 +1805,7 @@ func (_sal) exec(vm *vm) {
 
 	if left, ok := left.(*valueBigInt); ok {
 		if right, ok := right.(*valueBigInt); ok {
-			n := uint((*big.Int)(right).Uint64())
-			if (*big.Int)(right).Sign() < 0 {
-				result = (*valueBigInt)(new(big.Int).Rsh((*big.Int)(left), n))
-			} else {
-				result = (*valueBigInt)(new(big.Int).Lsh((*big.Int)(left), n))
-			}
+			result = vm.r.bigIntShift((*big.Int)(left), (*big.Int)(right), true)
 			goto end
 		}
 		panic(errMixBigIntType)
@@ -1819,12 +1831,7 @@ func (_sar) exec(vm *vm) {
 
 	if left, ok := left.(*valueBigInt); ok {
 		if right, ok := right.(*valueBigInt); ok {
-			n := uint((*big.Int)(right).Uint64())
-			if (*big.Int)(right).Sign() < 0 {
-				result = (*valueBigInt)(new(big.Int).Lsh((*big.Int)(left), n))
-			} else {
-				result = (*valueBigInt)(new(big.Int).Rsh((*big.Int)(left), n))
-			}
+			result = vm.r.bigIntShift((*big.Int)(left), (*big.Int)(right), false)
 			goto end
 		}
 		panic(errMixBigIntType)
